@@ -674,6 +674,6 @@ ASSUMPTIONS = ["A-FP (floating-point model): IEEE-754 binary64, round to nearest
                "exponential so that their input ranges over exactly the group elements with rotation angle <= 1 rad",
                "the 'exact mathematical value' is the real-arithmetic value of the same graph with every series coefficient replaced by the analytic function its key names (closed form = named function: C06 closed-form obligations; "
                "Taylor side: truncation lemma); that this real-arithmetic function is the Lie-theoretic exp / log / Jacobian is C02-C05 (closed cell) and the Taylor-cell obligations there",
-               "AD clause: value and CasADi AD Jacobian proved finite on the whole ball including zero, except next to the identity for the acos-based logarithms (known finding); CasADi's AD itself is trusted",
+               "AD clause: value and CasADi AD Jacobian proved finite on the whole ball including zero for every consumer (the acos-based logarithms after their round-2 repairs, fixes f23b635 and d9649ea in /repo); CasADi's AD itself is trusted",
                "entries '1/x^2' and '(2 - x cos(x))/(2 x^2)' have true poles at 0 (no finite limit): SE23.log evaluates '1/x^2' but never uses the result (dead code, checked on the graph); no other consumer exists"]
 BOUNDED = ["floating-point accuracy of every consumer re-checked by evaluation: 34 magnitudes x 3 directions per function, doubles vs 120-digit reference (backend SWEEP; reported under bounded_stand_ins, not counted as proved)"]
